@@ -21,6 +21,7 @@ import Proofs.Lemmas.KnapsackL
 import Proofs.Lemmas.DynprogL
 import Proofs.Lemmas.NextpermOrderL
 import Proofs.Lemmas.NextpermL
+import Proofs.Lemmas.NextArrL
 namespace Proofs.C20
 open Model Model.Perms Model.Knapsack
 
@@ -108,6 +109,50 @@ theorem nextperm_unique (l r r' : List Int) (h : nextperm l = .ok r)
   cases hr0
   obtain ⟨hlt, hmin⟩ := hs0 ⟨r', h1, h2⟩
   exact List.le_antisymm (List.not_lt.1 (h3 r hp0 hlt)) (List.not_lt.1 (hmin r' h1 h2))
+
+/-- **nextperm_eq_nextArr**: the brute-force successor of the executable specification (`Spec.Perms.nextArr`: the least
+    arrangement of l above l among ALL arrangements `Spec.Perms.perms l`, the least arrangement of all when there is none
+    above) is what `nextperm` returns, for every list — so the `spec` column the driver echoes for `nextperm` lines IS the
+    successor characterised by `nextperm_succ` / `nextperm_unique`, not merely a function validated by the stream -/
+theorem nextperm_eq_nextArr (l : List Int) : nextperm l = .ok (Spec.Perms.nextArr l) := by
+  obtain ⟨r, hr, hperm, hsucc, hlast⟩ := nextperm_succ l
+  have hmem : ∀ p : List Int, p ∈ Spec.Perms.perms l ↔ p.Perm l := Proofs.Lemmas.PermsSpecL.mem_perms _ l rfl
+  rw [hr]
+  congr 1
+  unfold Spec.Perms.nextArr
+  cases hf : (Spec.Perms.perms l).filter (fun p => l < p) with
+  | cons c cs =>
+    -- some arrangement is above l: the least of them is the unique successor
+    simp only
+    have hin : ∀ p : List Int, p ∈ c :: cs ↔ p.Perm l ∧ l < p := by
+      intro p
+      rw [← hf, List.mem_filter, hmem, decide_eq_true_eq]
+    obtain ⟨hm, hle⟩ := Proofs.Lemmas.NextArrL.lexMin_spec cs c
+    have hm' := (hin _).1 hm
+    exact (nextperm_unique l r _ hr hm'.1 hm'.2
+      (fun p hp hlp => List.not_lt.2 (hle p ((hin p).2 ⟨hp, hlp⟩)))).symm
+  | nil =>
+    -- l is the last arrangement: the result is the ascending one, which is the least arrangement of all
+    simp only
+    have hnone : ¬ ∃ p : List Int, p.Perm l ∧ l < p := by
+      rintro ⟨p, hp, hlp⟩
+      have : p ∈ (Spec.Perms.perms l).filter (fun p => l < p) := by
+        rw [List.mem_filter, hmem, decide_eq_true_eq]; exact ⟨hp, hlp⟩
+      rw [hf] at this
+      exact absurd this List.not_mem_nil
+    have hasc := hlast hnone
+    cases hp : Spec.Perms.perms l with
+    | nil =>
+      have : l ∈ Spec.Perms.perms l := (hmem l).2 (List.Perm.refl l)
+      rw [hp] at this
+      exact absurd this List.not_mem_nil
+    | cons c cs =>
+      simp only
+      have hin : ∀ p : List Int, p ∈ c :: cs ↔ p.Perm l := by
+        intro p; rw [← hp, hmem]
+      obtain ⟨hm, hle⟩ := Proofs.Lemmas.NextArrL.lexMin_spec cs c
+      have hmp : (Spec.Perms.lexMin c cs).Perm r := ((hin _).1 hm).trans hperm.symm
+      exact List.le_antisymm (Proofs.Lemmas.NextpermOrderL.asc_least r hasc _ hmp) (hle r ((hin r).2 hperm))
 
 /-! ## combink -/
 
@@ -237,6 +282,7 @@ theorem dynprog_partial (l : List Item) (hpos : ∀ it ∈ l, 0 < weight it) (s 
 
 example : (permutk [1, 2, 3] 1).1 = [[1, 2, 3], [1, 3, 2]] ∧ (permutk [1, 2, 3] 1).2 = [1, 2, 3] := by decide
 example : (nextperm [1, 2, 1]).toOption = some [2, 1, 1] ∧ (nextperm [3, 2, 1]).toOption = some [1, 2, 3] := by decide +kernel
+example : Spec.Perms.nextArr [1, 2, 1] = [2, 1, 1] ∧ Spec.Perms.nextArr [3, 2, 1] = [1, 2, 3] ∧ Spec.Perms.nextArr [] = [] := by decide +kernel
 example : (combink [1, 2, 3, 4] 2 0).toOption = some [[1, 2], [1, 3], [1, 4], [2, 3], [2, 4], [3, 4]] := by decide +kernel
 example : ∀ it ∈ ([(1, 3), (2, 5), (3, 2), (4, 7)] : List Item), 0 < weight it := by decide
 example : exactsum [(1, 3), (2, 5), (3, 2), (4, 7)] 12 = some [(4, 7), (3, 2), (1, 3)] := by decide +kernel
